@@ -18,6 +18,8 @@ Streams
             receives is a value that was set under that name, and a cookie set by a response comes back
             unchanged on the next request to the same URL
   match     Cookie._matches_request on random domains / paths vs Model.CookieJar.domainMatch / pathMatch
+  int-kernel  CPython's int(text.strip() or 0) (the jar's reading of Max-Age) vs Model.CookieJar.pyInt: signs,
+            underscores, decimal digits of every script, white space, isdigit-only characters (kernel validation)
   jar-paths test client jar with cookie paths containing spaces / non-ASCII / ';' (oracle only)
 """
 from __future__ import annotations
@@ -744,6 +746,10 @@ JAR_RAW = [
     "=x", "", "r", "r; Path=/a", 'r="a\\073b"; Path=/', "r=1; Expires=Thu, 01 Jan 1970 00:00:00 GMT", "r=1; expires=garbage", "r=1; Expires=Thu, 01 Jan 2099 00:00:00 GMT",
     "r=1; Max-Age=5; Expires=Thu, 01 Jan 1970 00:00:00 GMT", "r=1; Max-Age=0; Expires=Thu, 01 Jan 2099 00:00:00 GMT", " r = 1 ; path = /a ", "r=1; PATH=/A", "r=1; Path=/a%20b", "r=1; Path=/x y",
     "r=1; =; ;", "r=1; domain", "r=1; samesite", "r=a=b; Path=/a=b", "r=\xe9", "r=1; Domain=B.A.COM",
+    # int() reads decimal digits of every script (and strips Unicode white space); isdigit-only
+    # characters, a trailing underscore, an inner space or NUL are refused
+    "r=8; Max-Age=\u0663", "r=9; Max-Age=\uff11\uff10", "r=1; Max-Age=1\u06f2_\u0663", "r=1; Max-Age=+\u0967", "r=1; Max-Age=\uff10\uff10", "r=1; Max-Age=\U0001d7ce",
+    "r=1; Max-Age=\xa05\u2003", "r=1; Max-Age=\xb2", "r=1; Max-Age=\u0663_", "r=1; Max-Age=- 3", "r=1; Max-Age=5\x00", "r=1; Max-Age=\u3007", "r=1; \uff2dax-age=0", "r=1; Max-Age=-\u0660",
 ]
 
 
@@ -1084,6 +1090,51 @@ class MatchStream(Stream):
         return real_out
 
 
+INT_TOK = ["0", "1", "7", "9", "00", "10", "_", "__", "+", "-", " ", "\t", "\xa0", "\u2003", "\x1f", "\x00", "\u0660", "\u0663", "\u06f2", "\u0967", "\uff10", "\uff11", "\uff19", "\U0001d7ce", "\U0001d7ff", "\U0001e950", "\xb2", "\u2460", "\u3007", "\u0bf0", "\u2080", "x", "e", ".", "0x1", "1e3", "\u0661\u0662", "\u1040", "\ua8d9", "\U0001fbf0", "\U0001fbf9", "\u0e50", "\u0966_\u0967"]
+
+
+class IntKernel(Stream):
+    """CPython's `int(text.strip() or 0)` - how `Cookie._from_response_header` reads a present Max-Age
+    value - vs Model.CookieJar.pyInt (kernel validation of the digit table and the underscore rule)"""
+
+    name = "int-kernel"
+    corpus = [{"t": hs(t)} for t in ["", " ", "0", "-0", "+5", "1_0", "1__0", "_1", "1_", "\u0663", "\uff11\uff10", "1\u06f2_\u0663", "+\u0967", "\uff10\uff10", "\U0001d7ce", "\xa05\u2003", "\xb2", "\u0663_", "- 3", "5\x00", "\u3007", "\u2460", "-\u0660", "\u0660\u0661\u0662\u0663\u0664\u0665\u0666\u0667\u0668\u0669", "9" * 30, "\x1c7\x85", "+-1", "1 2", "\u0663\U0001d7d1_\uff17"]]
+
+    _DEC: list = []
+
+    def cases(self, rng, tier):
+        if not self._DEC:
+            self._DEC.extend(c for c in range(0x80, 0x110000) if chr(c).isdecimal())
+        while True:
+            out = []
+            for _ in range(rng.choice([1, 1, 2, 2, 3, 4, 6])):
+                r = rng.random()
+                if r < 0.6:
+                    out.append(rng.choice(INT_TOK))
+                elif r < 0.85:
+                    out.append(chr(rng.choice(self._DEC)))
+                elif r < 0.95:
+                    out.append(chr(rng.randrange(0x80)))
+                else:
+                    c = rng.randrange(0x80, 0x110000)
+                    out.append(chr(0x0663 if 0xD800 <= c < 0xE000 else c))
+            yield {"t": hs("".join(out))}
+
+    def real(self, case):
+        return str(int(unhs(case["t"]).strip() or 0))
+
+    def model_line(self, case):
+        return line("jar.int", case["t"])
+
+    def nontrivial(self, case, real_out):
+        return not real_out.startswith("EXC")
+
+    def bucket(self, case, real_out):
+        if real_out.startswith("EXC"):
+            return real_out
+        return "int:" + ("ascii" if unhs(case["t"]).isascii() else "unicode")
+
+
 JAR_PATHS = [None, "/", "/bar", "/my docs", "/my%20docs", "/caf\u00e9", "/a+b", "/x;y", "/q'uote", "/a b/c d"]
 
 
@@ -1140,13 +1191,13 @@ class JarPathStream(Stream):
 
 CHECK = Check(
     prop="C13",
-    gen=["Cookie", "CookieGlue", "UrlTables", "PyFns_Cookie"],
+    gen=["Cookie", "CookieGlue", "UrlTables", "PyFns_Cookie", "Http", "PyFns_Http", "PyFns_HttpDict", "PyFns_Internal"],
     modules=["WzVerif.Props.C13", "WzVerif.Props.C13T"],
-    streams=[ValueStream(), AttrStream(), ParseStream(), RespStream(), JarStream(), MatchStream(), JarPathStream()],
+    streams=[ValueStream(), AttrStream(), ParseStream(), RespStream(), JarStream(), MatchStream(), IntKernel(), JarPathStream()],
     assumptions=[
         "round 3 (Props/C13T): dump_cookie (expires as str, max_age as int), http.parse_cookie (str form) and sansio.http.parse_cookie are regenerated from the source by tools/py2lean.py (Gen/PyFns_Cookie.lean) on every run and proved equal to the hand model dumpCookie / parseCookieEnviron / parseCookie for all inputs, including which exception escapes first (IDNA, then SameSite ValueError, then the value escaping); the cookie regexes enter as the model's functions over the regenerated tables (their shapes are pinned by regex_shapes), urllib quote as C15's model with the safe= literal of the source, the IDNA codec and http_date(now + max_age) are parameters; CPython primitives (str.title for ASCII, partition, lstrip(chars), latin-1 / UTF-8 codecs) are modelled in Util/PyPrelude.lean and validated by the stream prelude-kernels of the checks that run it",
         "opaque library calls (fields of Model/CookieAttrs.lean `Lib`, every theorem quantifies over them; the harness tabulates them per case with the same library functions): the idna codec on NON-ASCII hosts, http_date of a datetime/timestamp, http_date(now + max_age) for sync_expires (canonicalised to a 29-character placeholder when it denotes now + max_age within 2 s), uri_to_iri of the Path attribute and parse_date of the Expires attribute in the test client's jar",
-        "modelled and validated by the streams, not verified: urllib.parse.quote with dump_cookie's safe= literal (live 256-byte table quoteKeeps + %XX), the idna codec's ASCII fast path (identity + label-length rule), int(timedelta.total_seconds()) as truncation (exact for |td| < 2^33 s; the generators stay below 200 years), str.title()/lower() on ASCII letters, int() on sign + ASCII digits with single underscores",
+        "modelled and validated by the streams, not verified: urllib.parse.quote with dump_cookie's safe= literal (live 256-byte table quoteKeeps + %XX), the idna codec's ASCII fast path (identity + label-length rule), int(timedelta.total_seconds()) as truncation (exact for |td| < 2^33 s; the generators stay below 200 years), str.title()/lower() on ASCII letters, int() on sign + decimal digits of any script with single underscores (the digit runs are a regenerated table of the live interpreter, obligation jar_int_digit_table; the parse itself is validated by stream int-kernel)",
         "the test client's view of a request (server name, path) is what urlsplit(get_current_url(environ)) yields; the harness computes it with those functions for the model (C15 owns their theory)",
         "_cookie_re.findall is hand-modelled for header text without LF ('.' does not match LF; werkzeug's cookie strings come from single header lines); validated by stream parse",
         "bytes.decode(errors='replace') is modelled by Lean core's strict UTF-8 decoder on valid input and a hand-written maximal-subpart replacer otherwise; validated by stream parse",
